@@ -314,6 +314,11 @@ struct XferRun : SdoEnv {
             else if (o.k == "enable2") { if (srv1late && !srv1on) { w.cur = 0; std::vector<uint8_t> img = w.image(0); CO_ERR e1 = CODictWrLong(&w.N(0)->Dict, CO_DEV(0x1201, 1), 0x640u + nodeId), e2 = CODictWrLong(&w.N(0)->Dict, CO_DEV(0x1201, 2), 0x5C0u + nodeId); if (e1 != CO_ERR_NONE || e2 != CO_ERR_NONE) { fail("enable2/refused", "switching the second SDO server on through the API was refused"); return v; } srv1on = true; (void)img; cov.hit("second-server-switched-on-through-the-api"); nontrivial = true; } }
             else if (o.k == "finish") { int guard = 6000; while (v.ok && L[o.arg(0) & 1].active && !L[o.arg(0) & 1].s.finished() && guard-- > 0) step((int)o.arg(0)); if (guard <= 0) fail("endless-transfer", "transfer did not end within 6000 client frames"); }
             else if (o.k == "req") req(o);
+            else if (o.k == "toggle2") {   // the application switches the (idle) second server off and on again through the API, possibly while the first server is in a transfer; from then on both servers must still work independently
+                bool busy1 = false; for (int k = 0; k < 2; k++) if (L[k].active && !L[k].s.finished() && L[k].s.srv == 1) busy1 = true;
+                if (srv1late && srv1on && !busy1) { w.cur = 0; int which = (int)(o.arg(0) & 1) + 1; uint32_t id = (which == 1 ? 0x640u : 0x5C0u) + nodeId;
+                    CO_ERR e1 = CODictWrLong(&w.N(0)->Dict, CO_DEV(0x1201, (uint8_t)which), id | 0x80000000u), e2 = CODictWrLong(&w.N(0)->Dict, CO_DEV(0x1201, (uint8_t)which), id);
+                    if (e1 != CO_ERR_NONE || e2 != CO_ERR_NONE) { fail("enable2/refused", "switching the second SDO server off and on through the API was refused"); return v; } cov.hit("second-server-switched-off-and-on-again"); nontrivial = true; } }
             else if (o.k == "g") { Frame f(0, (uint8_t)o.arg(1, 8), o.b); if (o.arg(2, -1) >= 0) { w.s[0].sendFailAfter = (int)o.arg(2); cov.hit("F5-sdo-response-refused-by-driver"); } garbage((int)(o.arg(0) % nsrv), f); w.s[0].sendFailAfter = -1; }
             else if (o.k == "abort") { int srv = (int)(o.arg(0) % nsrv); Frame f(0, 8, {0x80, 0, 0, 0, 0, 0, 0, 0}); garbage(srv, f); }
             else if (o.k == "resetcom") { size_t m = w.mark(); w.rx(0, Frame(0, 2, {(uint8_t)(o.arg(0) ? 129 : 130), 0})); w.canproc(0); L[0].active = L[1].active = false; recovered[0] = recovered[1] = true; bool boot = false; for (auto &fr : w.txSince(m)) boot |= fr.id == 0x700u + nodeId; if (!boot) fail("reset/no-bootup", "no boot-up frame after NMT reset"); cov.hit("reset-communication"); }
@@ -352,13 +357,20 @@ static Plan gen_xfer(Rng &r, bool thorough, bool upload) {
     int sessions = (int)r.range(1, 3);
     for (int sidx = 0; sidx < sessions; sidx++) {
         bool two = r.chance(1, 3);
-        p.ops.push_back(gen_begin(r, 0, r.chance(1, 8) ? !upload : upload, thorough));
+        Op first = gen_begin(r, 0, r.chance(1, 8) ? !upload : upload, thorough);
+        if (r.chance(1, 4) && !(p.cfg["srv1late"] && first.a[1] == 1)) {   // an earlier client left this server after a transfer that the server itself aborted (toggle error, short middle segment) or that was simply abandoned - no client abort, no reset in between
+            int64_t sv = first.a[1]; int var = (int)r.below(3); auto g = [&](std::initializer_list<uint8_t> b) { p.ops.push_back(Op("g", {sv, 8, -1}, std::vector<uint8_t>(b))); };
+            if (var == 1) { uint32_t sz = (uint32_t)p.cfg["dom0"]; g({0x21, 0x00, 0x21, 0, (uint8_t)sz, (uint8_t)(sz >> 8), 0, 0}); int k = (int)r.below(3); for (int i = 0; i < k; i++) g({(uint8_t)((i & 1) << 4), 1, 2, 3, 4, 5, 6, 7}); g({(uint8_t)(((k & 1) << 4) | (uint8_t)(r.range(3, 6) << 1)), 9, 9, 9, 9, 9, 9, 9}); }
+            else { uint16_t ix = r.pick<uint16_t>({0x2101, 0x2102, 0x2201, 0x2100}); g({0x40, (uint8_t)ix, (uint8_t)(ix >> 8), 0, 0, 0, 0, 0}); int k = (int)r.range(var == 0 ? 1 : 0, 4); for (int i = 0; i < k; i++) g({(uint8_t)(0x60 | (i & 1) << 4), 0, 0, 0, 0, 0, 0, 0}); if (var == 0) g({(uint8_t)(0x60 | ((k - 1) & 1) << 4), 0, 0, 0, 0, 0, 0, 0}); }
+        }
+        p.ops.push_back(first);
         if (two) p.ops.push_back(gen_begin(r, 1, r.chance(1, 3) ? !upload : upload, thorough));
         if (p.cfg["srv1late"] && sidx == 0) { /* first session on server 0, the switch-on somewhere inside it */ }
         bool faulty = r.chance(1, 4);     // F5: in a quarter of the sessions the CAN driver refuses some of the server's frames
         int n = (int)r.range(0, faulty ? 30 : 12);
-        for (int i = 0; i < n; i++) { int c = (int)r.below(10); if (c < 7) p.ops.push_back(Op("step", {two ? (int64_t)r.below(2) : 0, faulty && r.chance(1, 4) ? (int64_t)r.below(5) : -1})); else if (c == 7 && p.cfg["srv1late"] && r.chance(1, 2)) p.ops.push_back(Op("enable2")); else if (c == 7) p.ops.push_back(Op("tick", {r.range(1, 50)})); else if (c == 8) { std::vector<uint8_t> b; for (int j = 0; j < 8; j++) b.push_back(r.byte()); p.ops.push_back(Op("noise", {r.pick<int64_t>({0x80, 0x181, 0x701, 0x7FF, 0x5FF, 0x100, 0x7E6})}, b)); } else p.ops.push_back(Op("read", {(int64_t)r.below(14)})); }
+        for (int i = 0; i < n; i++) { int c = (int)r.below(10); if (c < 7) p.ops.push_back(Op("step", {two ? (int64_t)r.below(2) : 0, faulty && r.chance(1, 4) ? (int64_t)r.below(5) : -1})); else if (c == 7 && p.cfg["srv1late"] && r.chance(1, 2)) p.ops.push_back(r.chance(2, 3) ? Op("enable2") : Op("toggle2", {(int64_t)r.below(2)})); else if (c == 7) p.ops.push_back(Op("tick", {r.range(1, 50)})); else if (c == 8) { std::vector<uint8_t> b; for (int j = 0; j < 8; j++) b.push_back(r.byte()); p.ops.push_back(Op("noise", {r.pick<int64_t>({0x80, 0x181, 0x701, 0x7FF, 0x5FF, 0x100, 0x7E6})}, b)); } else p.ops.push_back(Op("read", {(int64_t)r.below(14)})); }
         p.ops.push_back(Op("finish", {0})); if (two) p.ops.push_back(Op("finish", {1}));
+        if (p.cfg["srv1late"] && r.chance(1, 2)) { p.ops.push_back(Op("enable2")); if (r.chance(1, 2)) p.ops.push_back(Op("toggle2", {(int64_t)r.below(2)})); }
     }
     return p;
 }
